@@ -421,9 +421,11 @@ def check_created_engine(rep, label, fac, b):
 def check_actions(repo, rep):
     """R02e: the reduce actions build the node the production describes."""
     mod = repo.module('yaql.language.parser')
-    gen = mod.func('Parser._generate_operator_funcs')
-    pb = mod.functions.get('Parser._generate_operator_funcs.p_binary')
-    pu = mod.functions.get('Parser._generate_operator_funcs.p_unary')
+    def nested(name):
+        c = [f for f in mod.functions.values()
+             if f.name == name and f.parent_func is not None]
+        return c[0] if len(c) == 1 else None
+    pb, pu = nested('p_binary'), nested('p_unary')
     if pb is None or pu is None:
         raise AnalysisError('anchor vanished: p_binary / p_unary')
 
@@ -452,7 +454,15 @@ def check_actions(repo, rep):
         args = {ps[-1]: pobj}
         if len(ps) > 1:
             args[ps[0]] = this
-        cenv = {gen.params()[1]: ops, gen.params()[2]: absint.Obj('engine')}
+        cenv = {}
+        for q in fi.parent_func.params()[1:]:
+            # the operator table is the closure variable the action asks
+            # `.operators` of; anything else is opaque
+            uses_ops = any(isinstance(x, ast.Attribute) and
+                           x.attr == 'operators' and isinstance(
+                               x.value, ast.Name) and x.value.id == q
+                           for x in ast.walk(fi.node))
+            cenv[q] = ops if uses_ops else absint.Obj(q)
         try:
             out = it.run(fi.node, args, cenv)
         except absint.Unsupported as e:
